@@ -59,13 +59,16 @@ fn unit_price(m: u8) {
         }
         None => assert!(price >= (1u128 << 32) * step, "C26: representable unit price rejected (floor)"),
     }
-    match d.with_unit_price(price, true) {
+    let c = d.with_unit_price(price, true);
+    match c {
         Some(r) => {
             assert!(r.decimal_multiplier == m, "C26: multiplier changed");
             assert!(price <= (u32::MAX as u128) * step, "C26: ceil quotient above u32 accepted");
         }
         None => assert!(price > (u32::MAX as u128) * step, "C26: representable unit price rejected (ceil)"),
     }
+    kani::cover!(c.is_some() && price > 0, "unit price accepted");
+    kani::cover!(c.is_none(), "unit price above the u32 range rejected");
 }
 
 /// Window exactness of `with_unit_price` for a concrete quotient `v` and EVERY remainder.
@@ -85,14 +88,16 @@ fn unit_price_window(m: u8, v: u32) {
     } else {
         assert!(c.is_none(), "C26: ceil above u32 accepted");
     }
+    kani::cover!(price == v as u128 * step, "left end of the window (exact multiple)");
+    kani::cover!(price - v as u128 * step == step - 1, "right end of the window (largest remainder)");
 }
 
 //@ prop=C26 tier=quick kind=hold
 //@ enc=gmsol_utils::price::Decimal::{to_unit_price, with_unit_price, multiplier}, u128::pow, u128::div_ceil
-//@ bound=EVERY multiplier 0..=20 (enumerated), EVERY u32 value, EVERY u128 price for the Some/None classification; unwind 7
+//@ bound=EVERY multiplier 0..=6 (enumerated), EVERY u32 value, EVERY u128 price for the Some/None classification of with_unit_price (floor and ceil); unwind 7
 #[kani::proof]
 #[kani::unwind(7)]
-fn c26_unit_price_all_multipliers() {
+fn c26_unit_price_multipliers_00_06() {
     unit_price(0);
     unit_price(1);
     unit_price(2);
@@ -100,6 +105,14 @@ fn c26_unit_price_all_multipliers() {
     unit_price(4);
     unit_price(5);
     unit_price(6);
+}
+
+//@ prop=C26 tier=quick kind=hold
+//@ enc=gmsol_utils::price::Decimal::{to_unit_price, with_unit_price, multiplier}, u128::pow, u128::div_ceil
+//@ bound=EVERY multiplier 7..=13 (enumerated), EVERY u32 value, EVERY u128 price for the Some/None classification of with_unit_price (floor and ceil); unwind 7
+#[kani::proof]
+#[kani::unwind(7)]
+fn c26_unit_price_multipliers_07_13() {
     unit_price(7);
     unit_price(8);
     unit_price(9);
@@ -107,6 +120,14 @@ fn c26_unit_price_all_multipliers() {
     unit_price(11);
     unit_price(12);
     unit_price(13);
+}
+
+//@ prop=C26 tier=quick kind=hold
+//@ enc=gmsol_utils::price::Decimal::{to_unit_price, with_unit_price, multiplier}, u128::pow, u128::div_ceil
+//@ bound=EVERY multiplier 14..=20 (enumerated), EVERY u32 value, EVERY u128 price for the Some/None classification of with_unit_price (floor and ceil); unwind 7
+#[kani::proof]
+#[kani::unwind(7)]
+fn c26_unit_price_multipliers_14_20() {
     unit_price(14);
     unit_price(15);
     unit_price(16);
@@ -118,21 +139,41 @@ fn c26_unit_price_all_multipliers() {
 
 //@ prop=C26 tier=quick kind=hold
 //@ enc=gmsol_utils::price::Decimal::with_unit_price (floor and ceil), u128::div_ceil
-//@ bound=multipliers {0,1,8,10,20}; quotients v in {0,1,9,4999,0x55555555,2^32-2,2^32-1}; EVERY price in [v*10^m, (v+1)*10^m); unwind 7
+//@ bound=multiplier 1; quotients v in {0,1,4999,2^32-2,2^32-1}; EVERY price in [v*10^m, (v+1)*10^m): floor = v, ceil = v at the left end and v+1 inside (None above u32); unwind 7
 #[kani::proof]
 #[kani::unwind(7)]
-fn c26_with_unit_price_windows() {
-    let ms: [u8; 5] = [0, 1, 8, 10, 20];
-    let vs: [u32; 7] = [0, 1, 9, 4_999, 0x5555_5555, u32::MAX - 1, u32::MAX];
-    let mut i = 0;
-    while i < 5 {
-        let mut j = 0;
-        while j < 7 {
-            unit_price_window(ms[i], vs[j]);
-            j += 1;
-        }
-        i += 1;
-    }
+fn c26_with_unit_price_windows_m01() {
+    unit_price_window(1, 0);
+    unit_price_window(1, 1);
+    unit_price_window(1, 4_999);
+    unit_price_window(1, u32::MAX - 1);
+    unit_price_window(1, u32::MAX);
+}
+
+//@ prop=C26 tier=quick kind=hold
+//@ enc=gmsol_utils::price::Decimal::with_unit_price (floor and ceil), u128::div_ceil
+//@ bound=multiplier 8; quotients v in {0,1,4999,2^32-2,2^32-1}; EVERY price in [v*10^m, (v+1)*10^m): floor = v, ceil = v at the left end and v+1 inside (None above u32); unwind 7
+#[kani::proof]
+#[kani::unwind(7)]
+fn c26_with_unit_price_windows_m08() {
+    unit_price_window(8, 0);
+    unit_price_window(8, 1);
+    unit_price_window(8, 4_999);
+    unit_price_window(8, u32::MAX - 1);
+    unit_price_window(8, u32::MAX);
+}
+
+//@ prop=C26 tier=quick kind=hold
+//@ enc=gmsol_utils::price::Decimal::with_unit_price (floor and ceil), u128::div_ceil
+//@ bound=multiplier 20; quotients v in {0,1,4999,2^32-2,2^32-1}; EVERY price in [v*10^m, (v+1)*10^m): floor = v, ceil = v at the left end and v+1 inside (None above u32); unwind 7
+#[kani::proof]
+#[kani::unwind(7)]
+fn c26_with_unit_price_windows_m20() {
+    unit_price_window(20, 0);
+    unit_price_window(20, 1);
+    unit_price_window(20, 4_999);
+    unit_price_window(20, u32::MAX - 1);
+    unit_price_window(20, u32::MAX);
 }
 
 // ---- pyth exponent handling -----------------------------------------------------------------
@@ -200,19 +241,82 @@ fn pyth_exponent(exponent: i32) {
 
 //@ prop=C26 tier=quick kind=hold
 //@ enc=gmsol_utils::oracle::pyth_price_value_to_decimal, u64::checked_pow, u64::checked_mul, TokenConfig::{token_decimals, precision}
-//@ bound=EVERY u64 value, EVERY i32 exponent except i32::MIN (see c26_pyth_exponent_min), EVERY u8 token_decimals / precision; unwind 34 (u64::checked_pow on a u32 exponent)
+//@ bound=EVERY u64 value, EVERY u8 token_decimals / precision, EVERY i32 exponent <= 0 except i32::MIN (see c26_pyth_exponent_min) and EVERY exponent >= 20 (symbolic); unwind 34 (u64::checked_pow on a u32 exponent)
 //@ stubs=Decimal::try_from_price replaced by a recording probe (arguments compared with the exact expectation; its own contract is decided by the other C26 harnesses / mir2smt)
 #[kani::proof]
 #[kani::stub(gmsol_utils::price::decimal::Decimal::try_from_price, try_from_price_probe)]
 #[kani::unwind(34)]
-fn c26_pyth_exponent_handling() {
+fn c26_pyth_exponent_non_positive_or_too_big() {
     let exponent: i32 = kani::any();
-    kani::assume(exponent != i32::MIN);
+    kani::assume(exponent != i32::MIN && (exponent <= 0 || exponent >= 20));
     pyth_exponent(exponent);
     kani::cover!(exponent == -255, "smallest exponent whose negation fits u8");
     kani::cover!(exponent == -256, "exponent too small");
-    kani::cover!(exponent == 19, "largest power of ten that fits u64");
+    kani::cover!(exponent == 0, "zero exponent");
     kani::cover!(exponent == 20, "exponent too big");
+    kani::cover!(exponent == i32::MAX, "largest exponent");
+}
+
+//@ prop=C26 tier=quick kind=hold
+//@ enc=gmsol_utils::oracle::pyth_price_value_to_decimal, u64::checked_pow, u64::checked_mul
+//@ bound=EVERY u64 value and token settings; positive exponents {1,8,19} (enumerated, so the power of ten is a constant); the remaining exponents 2..=18 are in the thorough tier; unwind 34
+//@ stubs=Decimal::try_from_price replaced by the recording probe
+#[kani::proof]
+#[kani::stub(gmsol_utils::price::decimal::Decimal::try_from_price, try_from_price_probe)]
+#[kani::unwind(34)]
+fn c26_pyth_exponent_positive() {
+    pyth_exponent(1);
+    pyth_exponent(8);
+    pyth_exponent(19);
+}
+
+//@ prop=C26 tier=thorough kind=hold
+//@ enc=gmsol_utils::oracle::pyth_price_value_to_decimal, u64::checked_pow, u64::checked_mul
+//@ bound=EVERY u64 value and token settings; positive exponents {2,3,4,5,6,7} (enumerated, so the power of ten is a constant); unwind 34
+//@ stubs=Decimal::try_from_price replaced by the recording probe
+//@ timeout=1800
+#[kani::proof]
+#[kani::stub(gmsol_utils::price::decimal::Decimal::try_from_price, try_from_price_probe)]
+#[kani::unwind(34)]
+fn c26_pyth_exponent_positive_02_07() {
+    pyth_exponent(2);
+    pyth_exponent(3);
+    pyth_exponent(4);
+    pyth_exponent(5);
+    pyth_exponent(6);
+    pyth_exponent(7);
+}
+
+//@ prop=C26 tier=thorough kind=hold
+//@ enc=gmsol_utils::oracle::pyth_price_value_to_decimal, u64::checked_pow, u64::checked_mul
+//@ bound=EVERY u64 value and token settings; positive exponents {9,10,11,12,13} (enumerated, so the power of ten is a constant); unwind 34
+//@ stubs=Decimal::try_from_price replaced by the recording probe
+//@ timeout=1800
+#[kani::proof]
+#[kani::stub(gmsol_utils::price::decimal::Decimal::try_from_price, try_from_price_probe)]
+#[kani::unwind(34)]
+fn c26_pyth_exponent_positive_09_13() {
+    pyth_exponent(9);
+    pyth_exponent(10);
+    pyth_exponent(11);
+    pyth_exponent(12);
+    pyth_exponent(13);
+}
+
+//@ prop=C26 tier=thorough kind=hold
+//@ enc=gmsol_utils::oracle::pyth_price_value_to_decimal, u64::checked_pow, u64::checked_mul
+//@ bound=EVERY u64 value and token settings; positive exponents {14,15,16,17,18} (enumerated, so the power of ten is a constant); unwind 34
+//@ stubs=Decimal::try_from_price replaced by the recording probe
+//@ timeout=1800
+#[kani::proof]
+#[kani::stub(gmsol_utils::price::decimal::Decimal::try_from_price, try_from_price_probe)]
+#[kani::unwind(34)]
+fn c26_pyth_exponent_positive_14_18() {
+    pyth_exponent(14);
+    pyth_exponent(15);
+    pyth_exponent(16);
+    pyth_exponent(17);
+    pyth_exponent(18);
 }
 
 //@ prop=C26 tier=quick kind=hold
